@@ -58,23 +58,23 @@ Section IdealWord.
 End IdealWord.
 
 Section IdealCbt.
-  Variables (logn base2k dnum rank : Z) (expo : bool) (ld lgo : Z).
+  Variables (logn base2k dnum rank bb : Z) (expo : bool) (ld lgo : Z).
   Hypothesis Hdnum : 0 <= dnum.
   Let n := 2 ^ logn.
-  Definition j_blind_rotate (m : Z) : poly := br_acc logn base2k dnum expo ld m.
+  Definition j_blind_rotate (m : Z) : poly := br_acc logn base2k dnum bb expo ld m.
   Definition j_post (c : poly) : poly := match post_process logn dnum ld lgo c with Some q => q | None => p_zero end.
   Definition j_expand (rows : list poly) : list poly := rows.
   Definition j_cell (g : list poly) (row col : Z) (mp : poly) : Prop :=
-    exists c, nth_error g (Z.to_nat row) = Some c /\ forall j, 0 <= j < n -> row_decoded base2k dnum row c j = mp j.
+    exists c, nth_error g (Z.to_nat row) = Some c /\ forall j, 0 <= j < n -> row_decoded base2k dnum bb row c j = mp j.
 
-  Lemma ideal_cbt_cells m : 0 <= m < 2 ^ ld -> cbt_rows_ok logn base2k dnum expo ld lgo m = true ->
+  Lemma ideal_cbt_cells m : 0 <= m < 2 ^ ld -> cbt_rows_ok logn base2k dnum bb expo ld lgo m = true ->
     forall row col, 0 <= row < dnum -> 0 <= col <= rank ->
       j_cell (cbt_ct Z poly (list poly) j_blind_rotate (p_rot n) (p_trace n) j_post j_expand logn dnum expo ld m)
              row col (cand logn expo lgo m).
   Proof.
     intros Hm Hok.
     apply (circuit_bootstrap_cells Z poly (list poly) j_blind_rotate (p_rot n) (p_trace n) j_post j_expand
-             logn base2k dnum rank expo ld lgo Hdnum eq eq j_cell always always); auto.
+             logn base2k dnum rank bb expo ld lgo Hdnum eq eq j_cell always always); auto.
     - intros l m' -> _ _. reflexivity.
     - intros k c q ->. reflexivity.
     - intros skip c q -> _. reflexivity.
